@@ -87,7 +87,7 @@ fn main() {
                     "hold" => (0..n).for_each(|_| cases.push(g::gen_hold(&mut rng))),
                     "respfail" => (0..n).for_each(|_| cases.push(g::gen_respfail(&mut rng))),
                     "badhold" => (0..n).for_each(|i| cases.push(g::gen_bad_expect_hold(&mut rng, i % 3))),
-                    "c12" => (0..n).for_each(|_| cases.push(g::gen_c12(&mut rng))),
+                    "c12" => (0..n).for_each(|i| cases.push(if i % 60 == 59 { g::gen_c12_stalled(&mut rng) } else { g::gen_c12(&mut rng) })),
                     "c18" => (0..n).for_each(|_| cases.push(g::gen_c18(&mut rng))),
                     "mixed" => (0..n).for_each(|_| cases.push(g::gen_mixed(&mut rng))),
                     "c10" => {
